@@ -77,6 +77,9 @@ type c06Shape struct {
 	attrSvc int // 0 absent, 1 non-default, 2 default
 	enc     bool
 	respLoc bool // every ACS endpoint also carries a ResponseLocation (which plays no part in Web SSO)
+	// what the SP's descriptor says it wants: "" = nothing said, else AuthnRequestsSigned/WantAssertionsSigned as "t"/"f" each. The IdP's
+	// obligations (both signatures, encryption when a key is published) do not depend on it
+	wants string
 }
 
 func c06Shapes() []c06Shape {
@@ -84,12 +87,17 @@ func c06Shapes() []c06Shape {
 	for _, n := range []int{2, 1, 3} {
 		for as := 0; as < 3; as++ {
 			for _, e := range []bool{false, true} {
-				out = append(out, c06Shape{fmt.Sprintf("acs%d/attrsvc%d/enc=%v", n, as, e), n, as, e, false})
+				out = append(out, c06Shape{fmt.Sprintf("acs%d/attrsvc%d/enc=%v", n, as, e), n, as, e, false, ""})
 			}
 		}
 	}
 	for _, n := range []int{1, 3} {
-		out = append(out, c06Shape{fmt.Sprintf("acs%d/attrsvc0/enc=%v/with-ResponseLocation", n, n == 3), n, 0, n == 3, true})
+		out = append(out, c06Shape{fmt.Sprintf("acs%d/attrsvc0/enc=%v/with-ResponseLocation", n, n == 3), n, 0, n == 3, true, ""})
+	}
+	for _, e := range []bool{true, false} {
+		for _, w := range []string{"ff", "tt", "tf"} {
+			out = append(out, c06Shape{fmt.Sprintf("acs2/attrsvc0/enc=%v/wants=%s", e, w), 2, 0, e, false, w})
+		}
 	}
 	return out
 }
@@ -127,6 +135,10 @@ func (s c06Shape) metadata() *saml.EntityDescriptor {
 	}
 	if s.enc {
 		sd.KeyDescriptors = []saml.KeyDescriptor{{Use: "encryption", KeyInfo: saml.KeyInfo{X509Data: saml.X509Data{X509Certificates: []saml.X509Certificate{{Data: spKey().CertB64}}}}}}
+	}
+	if s.wants != "" {
+		ars, was := s.wants[0] == 't', s.wants[1] == 't'
+		sd.AuthnRequestsSigned, sd.WantAssertionsSigned = &ars, &was
 	}
 	ed := &saml.EntityDescriptor{EntityID: samlgen.SPEntity, SPSSODescriptors: []saml.SPSSODescriptor{sd}}
 	b, _ := xml.Marshal(ed)
